@@ -156,7 +156,8 @@ def run(rep):
         "registered undo functions do when they run are NOT "
         "proved - those functions mix sympy/optlang calls, string parsing and nested loops outside the supported subset: bounded "
         "driver (histories compared step by step with an executable reference description + Inv_XRef after every step)."),
-        trusted=["CPython list/dict semantics as axiomatised", "copy.deepcopy returns a fresh detached object (assumed)",
+        trusted=["Model.add_reactions[context]: at the call site self.add_metabolites(metabolite) with a context open the callee is ASSUMED to change model.metabolites / _model / _reaction as its no-context contract (proved without a context only) says - its precondition without `no context open` is obliged - and to register its own undos (recorded call, not looked at); the callees' own undos are ASSUMED (glue lemmas only) to touch _model / _reaction of joined metabolites and genes only; stated precondition own-keys-do-not-list",
+                 "CPython list/dict semantics as axiomatised", "copy.deepcopy returns a fresh detached object (assumed)",
                  "reverse_id is a function of the current id; model.variables[...] finds the reaction's variables (assumed getters)",
                  "add_boundary: Reaction constructor stores id/name/bounds as given with an empty annotation dict; "
                  "find_external_compartment, Reaction.add_metabolites, Model.add_reactions abstract (ghost trace); f-strings as opaque "
